@@ -101,6 +101,7 @@ func runC14(c *Ctx) {
 	// that request's order id — filed under its predecessor's, it is recycled when the predecessor is answered and a
 	// later packet overwrites the bytes the slower WRITE is still to store
 	checkPageTagging(c, "R9")
+	checkHandleObjectsClosedOnlyByClose(c, "R10")
 	d := getDispatcher(c, "R1")
 	if d == nil {
 		return
